@@ -218,7 +218,11 @@ def _make_wrapper(el, get):
     if "itemsT" in by:
         kwargs["items"] = [_filler()] + [tgt(kd, i + 1) for i, kd in enumerate(by["itemsT"])]
     if "additionalItems" in by:
-        kwargs.setdefault("items", [_filler()])
+        # the ordering walks `additionalItems` whatever `items` is: next to tuple items (Array),
+        # and next to no items at all (untyped element) or a single items schema
+        if cls == "Array":
+            if "items" not in kwargs:
+                kwargs["items"] = [_filler()] if by["additionalItems"][0]["to"] % 2 else _filler()
         kwargs["additionalItems"] = tgt(by["additionalItems"][0])
     if "contains" in by:
         kwargs["contains"] = tgt(by["contains"][0])
